@@ -47,9 +47,9 @@ func startBackend(name string, timeoutMS int) (*Backend, error) {
 	var argv []string
 	switch name {
 	case "z3", "z3-fast":
-		argv = []string{"z3", "-in", fmt.Sprintf("-t:%d", timeoutMS)}
+		argv = []string{"z3", "-in", fmt.Sprintf("-t:%d", timeoutMS), "-memory:6000"}
 	case "z3-new":
-		argv = []string{"z3-new", "-in", fmt.Sprintf("-t:%d", timeoutMS)}
+		argv = []string{"z3-new", "-in", fmt.Sprintf("-t:%d", timeoutMS), "-memory:6000"}
 	case "cvc5", "cvc5-fast":
 		argv = []string{"cvc5", "--incremental", "--lang=smt2", "--produce-models", fmt.Sprintf("--tlimit-per=%d", timeoutMS)}
 	case "cvc5-bvint":
@@ -478,8 +478,21 @@ func (p *Portfolio) race(backs []*Backend, asserts, extra, want []*Term) (Verdic
 	}
 	var why []string
 	t0 := time.Now()
+	// hard watchdog: solvers do not always honour their soft time limits
+	hard := time.After(2*time.Duration(p.tmoMS)*time.Millisecond + 5*time.Second)
 	for i := 0; i < n; i++ {
-		r := <-ch
+		var r raceRes
+		select {
+		case r = <-ch:
+		case <-hard:
+			for b, g := range launched {
+				if atomic.LoadInt64(&b.gen) == g {
+					b.kill()
+				}
+			}
+			hard = nil
+			r = <-ch
+		}
 		p.statMu.Lock()
 		s := p.stat(r.b.name)
 		s.Queries++
